@@ -50,6 +50,20 @@ CLAIMED = {
         ref="DESIGN.md §6 C10",
         technique="Lean 4 proof (mutual structural induction over bundle trees, table theorem) + differential correspondence",
     ),
+    "C09": dict(
+        text="Lean 4 theorems: the readable name format k=v ... (strings quoted with escaped quotes/backslashes, numbers and None as "
+        "atoms) is injective in the parameter values for all strings (proved by exhibiting the parser: unescape∘escape = id, "
+        "space-free atoms split uniquely); over the generator-cache model: a cached call returns the identical module without "
+        "running the body or changing state, a completed call is cached (memoisation for any call order and nesting), a "
+        "handing-on generator keeps the module's name, a fresh module is named after its own call. Tied to the code by adversarial "
+        "parameter values (names compared with the model, all pairs checked equal-params<->equal-names), random acyclic generator "
+        "programs (identity, body-run log, names, co-export), and nested/enum/Prefixed/Module-valued shapes.",
+        note="md5-of-JSON names (non-scalar shapes, >=128 chars) are not modelled: injectivity there assumes md5 collision freedom and "
+        "json.dumps injectivity; checked pairwise by correspondence only. Recursion (circular generator calls) is rejected by the code "
+        "and not part of the cache model. str()/repr() of numbers trusted injective.",
+        ref="DESIGN.md §6 C09",
+        technique="Lean 4 proof (parser/round-trip injectivity, cache map lemmas) + differential correspondence",
+    ),
 }
 NOT_YET = {}
 
